@@ -119,6 +119,7 @@ type pathCtx struct {
 	rlocks      map[*value]int
 	wwait       map[*value]int
 	pools       map[*value][]value
+	syncMaps    map[*value]*omap
 	os          *osState
 	uniq        map[int32]uniqRes
 }
